@@ -198,6 +198,7 @@ func buildAndVerify(vc vcase) VObs {
 		}
 	}
 	fx := newVFixture(in, scheme, vc)
+	fx.payloadSalt = vc.sigMut
 	env := fx.envelope(vc)
 
 	// ----- policy ---------------------------------------------------------
@@ -477,6 +478,7 @@ type vfixture struct {
 	store            *mockTrustStore
 	trustStores      []string
 	identities       []string
+	payloadSalt      int
 	injectIdentities bool // the identity list cannot pass validation: it is written into the document after construction
 	verifyTimestamp  string
 	rev              *mockRevocation
@@ -701,7 +703,13 @@ func stdChainByKey(key string) *Chain {
 // payload builds the signed payload for the fixture's facts.
 func (fx *vfixture) payload() []byte {
 	if !fx.in.Env.PJSON {
-		return []byte(`{"targetArtifact":"not-a-descriptor"}`)
+		// not a Notary payload: no descriptor at all, or a descriptor one of whose members has the wrong JSON type (digest, size and
+		// media type being those of the artifact)
+		d := ocispec.Descriptor{MediaType: mtA, Digest: digestOf(fx.hashAlg, blobA), Size: int64(len(blobA))}
+		good, _ := json.Marshal(d)
+		body := string(good[:len(good)-1])
+		return []byte([]string{`{"targetArtifact":"not-a-descriptor"}`, `{"targetArtifact":` + body + `,"annotations":{"buildId":101}}}`,
+			`{"targetArtifact":` + body + `,"urls":"https://example.com/x"}}`, `{"targetArtifact":` + body + `,"annotations":["a","b"]}}`}[fx.payloadSalt%4])
 	}
 	d := ocispec.Descriptor{MediaType: mtA, Digest: digestOf(fx.hashAlg, blobA), Size: int64(len(blobA))}
 	if fx.in.Desc.MT == "unsigned" {
